@@ -2360,6 +2360,10 @@ def create_library_from_dictionary(node):
                     .format(subnode.get("__line__", "?")))
             key = subnode["type"]
             fields = subnode["fields"]
+            if not isinstance(key, str):
+                raise RuntimeError(
+                    "typemap type must be a string, found '{}' at line {}"
+                    .format(key, subnode.get("__line__", "?")))
             if not isinstance(fields, dict):
                 raise RuntimeError(
                     "typemap fields must be a dictionary at line {}"
